@@ -107,7 +107,7 @@ func (p *Program) census(prop string) []*Obligation {
 				for f := fn; f.Parent() != nil; f = f.Parent() {
 					owner = p.relName(f.Parent())
 				}
-				if !allowed[n] && !allowed[owner] {
+				if !allowed[n] && !allowed[owner] && !p.onlyReachedFrom(fn, allowed, map[*ssa.Function]bool{}) {
 					offenders = append(offenders, n)
 				}
 			}
@@ -131,6 +131,68 @@ func (p *Program) census(prop string) []*Obligation {
 	return out
 }
 
+
+// onlyReachedFrom: fn is an unexported helper that is referenced (called, spawned or taken
+// as a value) only from allowed functions or from other such helpers; it cannot be invoked
+// through an interface. Such a helper's sends, closes and stores happen only on behalf of
+// the allowed functions, so it does not widen the census (extracting a helper out of an
+// allowed function is not a violation).
+func (p *Program) onlyReachedFrom(fn *ssa.Function, allowed map[string]bool, seen map[*ssa.Function]bool) bool {
+	for fn.Parent() != nil {
+		fn = fn.Parent()
+	}
+	if seen[fn] {
+		return true
+	}
+	seen[fn] = true
+	if fn.Object() == nil || fn.Object().Exported() {
+		return false
+	}
+	refs := 0
+	for _, g := range p.funcs {
+		if g.Synthetic != "" && g.Parent() == nil {
+			continue
+		}
+		pos := p.prog.Fset.Position(g.Pos())
+		if strings.HasSuffix(pos.Filename, "verif_contracts.go") {
+			continue
+		}
+		hit := false
+		for _, b := range g.Blocks {
+			for _, in := range b.Instrs {
+				if c, ok := in.(ssa.CallInstruction); ok && c.Common().IsInvoke() && c.Common().Method.Name() == fn.Name() && fn.Signature.Recv() != nil {
+					return false
+				}
+				for _, op := range in.Operands(nil) {
+					if f, ok := (*op).(*ssa.Function); ok && baseFuncName(p, f) == baseFuncName(p, fn) {
+						hit = true
+					}
+				}
+			}
+		}
+		if !hit {
+			continue
+		}
+		if strings.HasSuffix(pos.Filename, "_test.go") {
+			continue
+		}
+		refs++
+		top := g
+		for top.Parent() != nil {
+			top = top.Parent()
+		}
+		if top == fn {
+			continue
+		}
+		if allowed[p.relName(g)] || allowed[p.relName(top)] || allowed[baseFuncName(p, top)] {
+			continue
+		}
+		if !p.onlyReachedFrom(top, allowed, seen) {
+			return false
+		}
+	}
+	return refs > 0
+}
 
 func chanFieldName(p *Program, v ssa.Value) string {
 	for {
